@@ -7,25 +7,23 @@ namespace SharkVerif.NN
 
 /-! ## Hypotheses and invariants -/
 
-/-- all point indices held by the leaves of a queue -/
-def qpts (q : List Leaf) : List Nat := q.flatMap (·.pts)
-
 /-- admissibility of the lower bounds: the bound stored at a node does not exceed
 the (squared) distance of any point below the node -/
 def LbAdm (dist : Nat → Rat) : TTree → Prop
-  | .leaf _ lb lf => ∀ p ∈ lf.pts, lb ≤ dist p
+  | .leaf _ lb es => ∀ p ∈ qpts es, lb ≤ dist p
   | .node _ lb _ l r => (∀ p ∈ l.pts ++ r.pts, lb ≤ dist p) ∧ LbAdm dist l ∧ LbAdm dist r
 
-/-- `LeafUniform`: every point of a leaf has the distance stored at the leaf
-(which the C++ computes from the leaf's FIRST point, see `leafD`): all points of
-a leaf are copies of one point. -/
+/-- `LeafUniform`: every point of a queue entry has the distance stored in the entry.
+For the leaf queue of the C++ as it is (one entry per leaf, distance of the leaf's FIRST point, see
+`leafEntries false`) this says that all points of a leaf are copies of one point; for the point
+queue (`leafEntries true`) it holds by construction. -/
 def LeafUniform (dist : Nat → Rat) : TTree → Prop
-  | .leaf _ _ lf => ∀ p ∈ lf.pts, dist p = lf.d
+  | .leaf _ _ es => ∀ e ∈ es, ∀ p ∈ e.pts, dist p = e.d
   | .node _ _ _ l r => LeafUniform dist l ∧ LeafUniform dist r
 
 /-- no leaf is empty -/
 def LeavesNonempty : TTree → Prop
-  | .leaf _ _ lf => lf.pts ≠ []
+  | .leaf _ _ es => es ≠ [] ∧ ∀ e ∈ es, e.pts ≠ []
   | .node _ _ _ l r => LeavesNonempty l ∧ LeavesNonempty r
 
 /-- status invariant: a COMPLETE inner node has two COMPLETE children -/
@@ -356,14 +354,14 @@ theorem enqueue_spec (dist : Nat → Rat) : ∀ (t : TTree) (q : List Leaf),
       · simpa [enqueue, hp] using EnqSpec.refl dist (.leaf false lb lf) q
       · simp only [enqueue, hp]
         simp only [Bool.false_eq_true, if_false]
-        refine { pts := rfl, lb := rfl, lbadm := id, unif := id, nonempty := id, grow := ⟨[lf], rfl⟩,
+        refine { pts := rfl, lb := rfl, lbadm := id, unif := id, nonempty := id, grow := ⟨lf, rfl⟩,
                  perm := ?_, inv := ?_, qtrue := ?_ }
-        · simp only [qpts_cons, TTree.unq, Bool.false_eq_true, if_false, if_true, List.append_nil]
+        · simp only [qpts_append, TTree.unq, Bool.false_eq_true, if_false, if_true, List.append_nil]
           exact List.perm_append_comm
         · intro _; exact ⟨trivial, fun _ => by simp [TTree.status]⟩
         · intro hu hn hqt e he
-          rcases List.mem_cons.mp he with rfl | he
-          · exact ⟨hn, hu⟩
+          rcases List.mem_append.mp he with he | he
+          · exact ⟨hn.2 e he, hu e he⟩
           · exact hqt e he
   | .node st lb gl l r, q => by
     by_cases hst : st = .done
@@ -657,12 +655,12 @@ theorem initDescend_spec (dist : Nat → Rat) : ∀ (t : TTree), Fresh t →
     have hq : qd = false := hf
     subst hq
     simp only [initDescend]
-    refine ⟨{ pts := rfl, lb := rfl, lbadm := id, unif := id, nonempty := id, grow := ⟨[lf], rfl⟩,
+    refine ⟨{ pts := rfl, lb := rfl, lbadm := id, unif := id, nonempty := id, grow := ⟨lf, by simp⟩,
               perm := ?_, inv := ?_, qtrue := ?_ }, ?_⟩
     · simp [qpts, TTree.unq]
     · intro _; exact ⟨trivial, fun _ => by simp [TTree.status]⟩
     · intro hu hn _ e he
-      simp at he; subst he; exact ⟨hn, hu⟩
+      exact ⟨hn.2 e he, hu e he⟩
     · intro _; simp [TTree.unq]
   | .node st lb true l r, hf => by
     obtain ⟨_, hl, hr⟩ := hf
